@@ -180,6 +180,52 @@ def truncDiv (m : Int) (d : Nat) : Int := if m ≥ 0 then m / d else -(-m / d)
 /-- does the mantissa fit `p` digits? -/
 def fitsDigits (m : Int) (p : Nat) : Bool := m.natAbs < 10 ^ p
 
+/-! ## TO_TIMESTAMP(<integer> [, scale]) (transforms.py `to_timestamp`; sqlglot renders `exp.UnixToTime` by scale) -/
+
+/-- the DuckDB function sqlglot's generator picks for `UnixToTime(n, scale)` -/
+inductive TsFn where
+  | toTimestamp     -- to_timestamp(n) / to_timestamp(n / power(10, scale)) : TIMESTAMP WITH TIME ZONE
+  | epochMs         -- epoch_ms(n)        : TIMESTAMP
+  | makeTimestamp   -- make_timestamp(n)  : TIMESTAMP
+deriving DecidableEq, Repr
+
+def unixToTimeFn (scale : Option Nat) : TsFn :=
+  match scale with
+  | some 3 => .epochMs
+  | some 6 => .makeTimestamp
+  | _ => .toTimestamp
+
+def TsFn.tzAware : TsFn → Bool
+  | .toTimestamp => true
+  | _ => false
+
+/-- fakesnow wraps EVERY UnixToTime in `CAST(… AS TIMESTAMP)`; `castAlways = false` models leaving the cast out
+    when a scale is given -/
+def toTimestampTzAware (castAlways : Bool) (scale : Option Nat) : Bool :=
+  if castAlways || scale.isNone then false else (unixToTimeFn scale).tzAware
+
+/-! ## DECIMAL(p,s) in `cursor.description` (types.py `describe_as_rowtype`: regex `\((\d+),(\d+)\)` on DuckDB's type text) -/
+
+def renderDecimalType (p s : Nat) : List Char :=
+  "DECIMAL(".toList ++ natDigits p ++ ',' :: (natDigits s ++ [')'])
+
+/-- precision and scale read back from the type text (defaults 38, 0 when it does not parse) -/
+def parseDecimalType (cs : List Char) : Nat × Nat :=
+  if cs.take 8 = "DECIMAL(".toList then
+    let rest := cs.drop 8
+    match rest.dropWhile isDigit with
+    | ',' :: r2 =>
+      match r2.dropWhile isDigit with
+      | ')' :: _ => (digitsVal (rest.takeWhile isDigit), digitsVal (r2.takeWhile isDigit))
+      | _ => (38, 0)
+    | _ => (38, 0)
+  else (38, 0)
+
+/-- the regex of the seeded variant: one or two precision digits, ONE scale digit -/
+def parseDecimalTypeOneDigitScale (cs : List Char) : Nat × Nat :=
+  let (p, s) := parseDecimalType cs
+  if s < 10 then (p, s) else (38, 0)
+
 /-! ## DATEADD result type (transforms.py:254 `dateadd_date_cast`, :291) -/
 
 inductive DUnit where
